@@ -38,7 +38,8 @@ def table(style, par, with_low, unsorted=False):
     rows, names = [], []
     spec = [("a1", pref + "1", 5_000_000), ("a1b", pref + "1", 6_000_000), ("a2", pref + "2", 5_000_000), ("x", pref + "X", 50_000_000),
             ("parx", pref + "X", 100_000), ("y", pref + "Y", 20_000_000), ("pary", pref + "Y", 100_000), ("mito", pref + "M" if style else "MT", 1000),
-            ("unplaced", (pref + "Un_gl000220") if style else "GL000220.1", 1000), ("random", pref + "1_gl000191_random", 1000)]
+            ("unplaced", (pref + "Un_gl000220") if style else "GL000220.1", 1000), ("random", pref + "1_gl000191_random", 1000),
+            ("decoy", "HLA-A*01:01:01:01" if style else "hs37d5", 1000)]          # a contig without the genome's chr prefix (hg38 HLA / decoy sequences, spike-ins)
     if with_low:
         spec.insert(2, ("low", pref + "1", 7_000_000))         # placeholder log2, depth 0
         spec.insert(3, ("low2", pref + "1", 8_000_000))        # placeholder log2, a tiny but non-zero depth: still a null-coverage bin
